@@ -56,7 +56,7 @@ fn builder_n<const K: usize, const CAP: usize>(same_window: bool) {
     }
     let k: usize = kani::any();
     kani::assume(k <= K);
-    let mut b = RtypeBitmapBuilder::<FixedBuf<CAP>>::new();
+    let mut b = RtypeBitmapBuilder::<FixedBufM<CAP>>::new();
     let mut i = 0;
     while i < k {
         b.add(Rtype::from_int(ts[i])).unwrap();
@@ -90,6 +90,8 @@ fn c13_bitmap_builder_1() {
     builder_n::<1, 36>(false)
 }
 
+// @tier: thorough
+// @timeout: 3000
 // @funcs: RtypeBitmapBuilder::{new,add,get_block,finalize}, RtypeBitmap::{contains,from_octets}
 // @bound: two fully symbolic u16 types falling into the same window (any window), any probe
 // @assume: both types share the high octet (different windows: thorough tier)
@@ -133,7 +135,7 @@ fn c13_bitmap_iter_sorted_exact() {
     let k: usize = kani::any();
     kani::assume(k <= 2);
     kani::assume(ts[0] & 0xFF < 12 && ts[1] & 0xFF < 12);
-    let mut b = RtypeBitmapBuilder::<FixedBuf<72>>::new();
+    let mut b = RtypeBitmapBuilder::<FixedBufM<72>>::new();
     let mut i = 0;
     while i < k {
         b.add(Rtype::from_int(ts[i])).unwrap();
@@ -159,4 +161,30 @@ fn c13_bitmap_iter_sorted_exact() {
         }
     }
     kani::cover!(distinct == 2, "two distinct types");
+}
+
+
+// @funcs: RtypeBitmap::{from_octets,contains}, read_window, split_rtype
+// @bound: every well-formed two-window bitmap whose windows hold 1..=2 octets each (window numbers, lengths and bits symbolic), any probe type: contains(probe) equals an independent RFC 4034 4.1.2 reader
+#[kani::proof]
+#[kani::unwind(5)]
+fn c13_bitmap_contains_on_wire() {
+    let buf: [u8; 8] = kani::any();
+    let l1 = buf[1] as usize;
+    kani::assume(l1 >= 1 && l1 <= 2);
+    let second: bool = kani::any();
+    let mut n = 2 + l1;
+    if second {
+        let l2 = buf[n + 1] as usize;
+        kani::assume(l2 >= 1 && l2 <= 2);
+        n += 2 + l2;
+    }
+    let bm = match RtypeBitmap::from_octets(&buf[..n]) {
+        Ok(b) => b,
+        Err(_) => panic!("well-formed window sequence rejected"),
+    };
+    let probe: u16 = kani::any();
+    let want = ref_contains(&buf[..n], probe, 3);
+    assert!(bm.contains(Rtype::from_int(probe)) == want);
+    kani::cover!(second && want && (probe >> 8) as u8 == buf[2 + l1], "probe found in the second window");
 }
